@@ -149,6 +149,12 @@ def real_cases(ctx, marker_dir):
                     tf = rng.choice(['mine.txt', 'act.src', 'stdout', 'exit-code', 'stdin', 'act'])
                     setup += ['file -rel-tmp %s = mine' % tf]
                     tmp_files.append(tf)
+                if rng.chance(0.25):
+                    # [setup] leaves files of its own in result/ (through the shell): after the act phase result/ still holds
+                    # exactly the action's output
+                    feats.append('stale files in result/')
+                    setup += ['$ echo stale-c04 > @[EXACTLY_RESULT]@/stdout; echo stale-c04 > @[EXACTLY_RESULT]@/stderr; '
+                              'echo 99 > @[EXACTLY_RESULT]@/exit-code']
                 if rng.chance(0.3):
                     feats.append('cd in before-assert')
                     before += ['cd -rel-tmp .']
